@@ -1,4 +1,6 @@
 """C03 -- request frames conform to the native protocol specification."""
+import os
+
 from hypothesis import strategies as st
 
 # imported once in the parent process (workers are forked): cassandra.cluster alone costs ~3 s
@@ -12,6 +14,8 @@ from vlib.harness import hyp_part
 PID = "C03"
 TITLE = "Request frames conform to the native protocol specification"
 LEVEL = "exploration"
+# the quick tier is ~25 s of single-core work; forking a pool costs more (copy-on-write of the imported driver) than it saves
+SERIAL = os.environ.get("VERIF_TIER") == "quick"
 ENGINE = "proto"
 TECHNIQUE = ("property-based testing (Hypothesis): driver encoder against an independent strict specification "
              "parser (spec/proto.py), field-by-field comparison, plus must-reject probes")
